@@ -9,11 +9,16 @@ package main
 //                                                          aggregator.GroupAggregator: Add*/GetResults/Reset per batch
 //   C03 S <shape> <N> <k> (<agg> <param>)*k # <cells of all rows> # <k results batch 1> # ...
 //                                                          SQL, GROUP BY CountingWindow(N), one query instance
+//   C03 M <N> <k> (<agg> <param> <arg>)*k # <cells of all rows> # <k results batch 1> # ...
+//                                                          SQL select list whose aggregate calls have DIFFERENT arguments
+//                                                          over the same column (x and its nested twin d.x):
+//                                                          <arg> = <x|dx>:<id|add|sub|mul>:<num/den>:<i|d>:<cl|lc>
 import (
 	"encoding/hex"
 	"fmt"
 	"math/big"
 	"sort"
+	"strconv"
 	"strings"
 	"sync"
 
@@ -235,7 +240,10 @@ func c3direct(agg, param string, vals []c3val) (string, error) {
 }
 
 func runC03(tier string, seed uint64, o *Out) error {
-	rng := NewRNG(seed)
+	// NewRNG(seed) starts at seed*step + c and every draw advances by the same step, so the streams of seeds
+	// s and s+1 are one draw apart and the case generators fall into lockstep after a few cases. Seed the
+	// generator of this property from a hashed draw instead: different seeds, unrelated streams.
+	rng := NewRNG(NewRNG(seed).Next())
 	nD, nP, nG, nS := 2500, 600, 500, 90
 	if tier == "thorough" {
 		nD, nP, nG, nS = 60000, 15000, 12000, 900
@@ -356,7 +364,205 @@ func runC03(tier string, seed uint64, o *Out) error {
 		o.Line("C03 S %s %d %d %s # %s # %s", j.shape, j.n, len(j.aggs), strings.Join(spec, " "), c3toks(j.cells), j.result)
 		o.Count("sql_" + j.shape)
 	}
+	// (5) SQL select lists whose calls have different arguments over the same column
+	nM := 110
+	if tier == "thorough" {
+		nM = 1100
+	}
+	mjobs := make([]*c3mjob, nM)
+	for i := range mjobs {
+		mjobs[i] = c3genMixed(rng)
+	}
+	for _, j := range mjobs {
+		j := j
+		wg.Add(1)
+		sem <- struct{}{}
+		go func() {
+			defer wg.Done()
+			defer func() { <-sem }()
+			j.result, j.err = c3sqlRun(j.query(), j.n, len(j.calls), j.cells, c3mixedRow)
+		}()
+	}
+	wg.Wait()
+	for _, j := range mjobs {
+		if j.err != nil {
+			return j.err
+		}
+		var spec []string
+		for _, c := range j.calls {
+			spec = append(spec, c.agg, c.param, c.arg.tok())
+		}
+		o.Line("C03 M %d %d %s # %s # %s", j.n, len(j.calls), strings.Join(spec, " "), c3toks(j.cells), j.result)
+		o.Count("sqlmix_" + j.family)
+		if j.dottedSameCol >= 2 {
+			o.Count("sqlmix_two_dotted_args_same_column")
+		}
+	}
 	return nil
+}
+
+// ---- family M: one select list, every aggregate call with its own argument over the same column ----
+
+// c3arg is the argument of one aggregate call: <col> <op> <lit> (or <lit> <op> <col>), col = x or the nested d.x,
+// lit an integer or a decimal literal (dyadic, so float64 arithmetic is exact).
+type c3arg struct {
+	nested   bool
+	op       string // id add sub mul
+	num, den int    // the literal
+	dec      bool   // written with a decimal point
+	litFirst bool
+}
+
+func (a c3arg) col() string {
+	if a.nested {
+		return "d.x"
+	}
+	return "x"
+}
+
+func (a c3arg) lit() string {
+	if !a.dec {
+		return strconv.Itoa(a.num / a.den)
+	}
+	s := strconv.FormatFloat(float64(a.num)/float64(a.den), 'f', -1, 64)
+	if !strings.Contains(s, ".") {
+		s += ".0"
+	}
+	return s
+}
+
+func (a c3arg) sql() string {
+	sym := map[string]string{"add": "+", "sub": "-", "mul": "*"}[a.op]
+	switch {
+	case a.op == "id":
+		return a.col()
+	case a.litFirst:
+		return a.lit() + " " + sym + " " + a.col()
+	}
+	return a.col() + " " + sym + " " + a.lit()
+}
+
+func (a c3arg) tok() string {
+	c, f, ord := "x", "i", "cl"
+	if a.nested {
+		c = "dx"
+	}
+	if a.dec {
+		f = "d"
+	}
+	if a.litFirst {
+		ord = "lc"
+	}
+	return fmt.Sprintf("%s:%s:%d/%d:%s:%s", c, a.op, a.num, a.den, f, ord)
+}
+
+// dotted: the argument's text contains '.', the engine's test for "has nested fields"
+func (a c3arg) dotted() bool { return a.nested || (a.op != "id" && a.dec) }
+
+type c3call struct {
+	agg, param string
+	arg        c3arg
+}
+
+type c3mjob struct {
+	family string
+	n      int
+	calls  []c3call
+	cells  []c3val
+	result string
+	err    error
+	// the largest number of calls with pairwise different dotted arguments over one column
+	dottedSameCol int
+}
+
+var c3intLits = [][2]int{{1, 1}, {2, 1}, {3, 1}, {10, 1}}
+var c3decLits = [][2]int{{1, 2}, {3, 2}, {5, 2}, {1, 4}, {2, 1}, {7, 4}}
+
+func c3genArg(r *RNG, nested bool) c3arg {
+	a := c3arg{nested: nested, op: []string{"id", "add", "add", "sub", "sub", "mul", "mul", "mul"}[r.Intn(8)], num: 0, den: 1}
+	if a.op == "id" {
+		return a
+	}
+	l := c3intLits[r.Intn(len(c3intLits))]
+	if r.Bool() {
+		l = c3decLits[r.Intn(len(c3decLits))]
+		a.dec = true
+	}
+	a.num, a.den = l[0], l[1]
+	if a.op != "sub" && r.Intn(4) == 0 {
+		a.litFirst = true
+	}
+	return a
+}
+
+func c3genMixed(r *RNG) *c3mjob {
+	j := &c3mjob{family: []string{"flat", "nested", "nested", "mixed"}[r.Intn(4)], n: r.Range(1, 6)}
+	k := r.Range(2, 6)
+	perm := r.Intn(len(c3aggs))
+	sameAgg := r.Intn(3) == 0 // sum(d.x * 2), sum(d.x + 1): one aggregate, several arguments
+	for c := 0; c < k; c++ {
+		agg := c3aggs[(perm+c*5)%len(c3aggs)]
+		if sameAgg {
+			agg = c3aggs[perm]
+		}
+		nested := j.family == "nested" || (j.family == "mixed" && r.Bool())
+		j.calls = append(j.calls, c3call{agg: agg, param: c3param(r, agg), arg: c3genArg(r, nested)})
+	}
+	if r.Intn(3) == 0 {
+		j.calls = append(j.calls, c3call{agg: "count_star", param: "-", arg: c3arg{op: "id", den: 1}})
+	}
+	for _, nested := range []bool{false, true} {
+		seen := map[string]bool{}
+		for _, c := range j.calls {
+			if c.agg != "count_star" && c.arg.nested == nested && c.arg.dotted() {
+				seen[c.arg.sql()] = true
+			}
+		}
+		if len(seen) > j.dottedSameCol {
+			j.dottedSameCol = len(seen)
+		}
+	}
+	nb := r.Range(2, 4)
+	j.cells = c3genVals(r, nb*j.n, 1, true)
+	for c := range j.cells { // arithmetic is C06's subject: numbers, NULL and missing only
+		switch j.cells[c].v.(type) {
+		case string, bool:
+			j.cells[c] = c3val{tok: "i1", v: 1}
+		}
+	}
+	return j
+}
+
+func (j *c3mjob) query() string {
+	var sel []string
+	for i, c := range j.calls {
+		switch c.agg {
+		case "count_star":
+			sel = append(sel, fmt.Sprintf("count(*) AS a%d", i))
+		case "percentile":
+			sel = append(sel, fmt.Sprintf("percentile(%s, %v) AS a%d", c.arg.sql(), c3paramVal(c.agg, c.param), i))
+		case "nth_value":
+			sel = append(sel, fmt.Sprintf("nth_value(%s, %s) AS a%d", c.arg.sql(), c.param, i))
+		default:
+			sel = append(sel, fmt.Sprintf("%s(%s) AS a%d", c.agg, c.arg.sql(), i))
+		}
+	}
+	return "SELECT " + strings.Join(sel, ", ") + ", max(rid) AS lid FROM stream GROUP BY CountingWindow(" + fmt.Sprint(j.n) + ")"
+}
+
+// c3mixedRow: the cell is the value of column x AND of the nested d.x; a missing cell has neither
+// (d absent or an empty object, alternating).
+func c3mixedRow(i int, c c3val) map[string]any {
+	row := map[string]any{"rid": i}
+	if c.missing {
+		if i%2 == 0 {
+			row["d"] = map[string]any{}
+		}
+		return row
+	}
+	row["x"] = c.v
+	row["d"] = map[string]any{"x": c.v}
+	return row
 }
 
 // c3group drives aggregator.GroupAggregator directly. mode c: the field reads column x;
@@ -453,6 +659,26 @@ func c3sql(shape string, n int, aggs [][2]string, cells []c3val) (string, error)
 		}
 	}
 	q := "SELECT " + strings.Join(sel, ", ") + ", max(rid) AS lid FROM stream GROUP BY CountingWindow(" + fmt.Sprint(n) + ")"
+	return c3sqlRun(q, n, len(aggs), cells, func(i int, c c3val) map[string]any {
+		row := map[string]any{"rid": i}
+		if shape == "nest" {
+			if c.missing {
+				if i%2 == 0 {
+					row["n"] = map[string]any{}
+				}
+			} else {
+				row["n"] = map[string]any{"v": c.v}
+			}
+		} else if !c.missing {
+			row["x"] = c.v
+		}
+		return row
+	})
+}
+
+// c3sqlRun runs one query instance over the rows of the cells (CountingWindow(n): batch b = rows b*n .. b*n+n-1)
+// and prints, per batch, the k columns a0..a(k-1).
+func c3sqlRun(q string, n, k int, cells []c3val, mkRow func(i int, c c3val) map[string]any) (string, error) {
 	s := streamsql.New(streamsql.WithDiscardLog())
 	if err := s.Execute(q); err != nil {
 		s.Stop()
@@ -467,7 +693,7 @@ func c3sql(shape string, n int, aggs [][2]string, cells []c3val) (string, error)
 		for _, r := range rs {
 			lid := toInt(r["lid"])
 			var parts []string
-			for i := range aggs {
+			for i := 0; i < k; i++ {
 				parts = append(parts, c3enc(r[fmt.Sprintf("a%d", i)]))
 			}
 			if _, dup := got[lid/n]; dup || (lid+1)%n != 0 {
@@ -477,19 +703,7 @@ func c3sql(shape string, n int, aggs [][2]string, cells []c3val) (string, error)
 		}
 	})
 	for i, c := range cells {
-		row := map[string]any{"rid": i}
-		if shape == "nest" {
-			if c.missing {
-				if i%2 == 0 {
-					row["n"] = map[string]any{}
-				}
-			} else {
-				row["n"] = map[string]any{"v": c.v}
-			}
-		} else if !c.missing {
-			row["x"] = c.v
-		}
-		s.Emit(row)
+		s.Emit(mkRow(i, c))
 	}
 	nb := len(cells) / n
 	waitQuiet(func() int { mu.Lock(); defer mu.Unlock(); return len(got) })
